@@ -631,7 +631,9 @@ func directed(tier string) []any {
 		}
 		last := f.kinds[len(f.kinds)-1]
 		pair := func(k string, seed uint64, sw SwitchSpec) {
-			second := []TaskOp{{K: k}, {K: last}}
+			// the second task makes the same kind of call with another argument (another
+			// message, other entropy): equal calls can hide a mix-up of their private data
+			second := []TaskOp{{K: k, A: 1}, {K: last}}
 			if race {
 				// ThreadSanitizer drops a report when the earlier access has left the other
 				// goroutine's bounded history: nothing long runs between the two calls
